@@ -470,6 +470,20 @@ def Var.outerContainer : Var → Option Var
 
 def Var.resetKey (v : Var) : Var := v.outerContainer.getD v
 
+/-- is the value a JSON object (a node that is both an object and a map: `o.n` and `o["n"]` are one cell)? -/
+def isMapLike (st : Store) (pv : Val) : Bool :=
+  match pv with
+  | .ref p =>
+    match st.get p with
+    | some n => (match n.cls with | .jObj => true | _ => false)
+    | none => false
+  | _ => false
+
+/-- the key a field assignment resets by: the outermost container below a selector, else — for a member of a JSON
+    object — the object, else the variable itself -/
+def fieldResetKey (st : Store) (v : Var) (f : String) (pv : Val) : Snap :=
+  if (Var.field v f).outerContainer.isNone && isMapLike st pv then snapV v else snapV (Var.field v f).resetKey
+
 /-- Variable.Assign -/
 def assignVar (c : Cfg) (s : EState) (target : Var) (new : Val) : R Unit × EState :=
   match target with
@@ -486,7 +500,7 @@ def assignVar (c : Cfg) (s : EState) (target : Var) (new : Val) : R Unit × ESta
       match writeField c.cells s1.st pv f new with
       | .ok st' =>
         let s2 := { s1 with st := st', log := .write (snapV target) :: s1.log }
-        (.ok (), if c.memo then resetVariable c.wm (snapV target.resetKey) s2 else s2)
+        (.ok (), if c.memo then resetVariable c.wm (fieldResetKey s1.st v f pv) s2 else s2)
       | .error e => (.error e, s1)
   | .index v e =>
     match evalV c s v with
